@@ -104,7 +104,8 @@ is_pd = sym('is_pd', (T,), B, None)
 chol = sym('chol', (T,), T, lambda a: _np.linalg.cholesky(a))
 eigvals = sym('eigvals', (T,), T, lambda a: _np.linalg.eigh(a)[0])
 eigvecs = sym('eigvecs', (T,), T, lambda a: _np.linalg.eigh(a)[1])
-EPS = z3.Real('EPS')          # machine epsilon: an unspecified positive real
+EPS = z3.Real('EPS')          # machine epsilon of float64: an unspecified positive real
+eps_of = sym('eps_of', (T,), R, lambda a: float(_np.finfo(a.dtype).eps) if a.dtype.kind == 'f' else float(_np.finfo(float).eps))   # of an array's dtype
 
 from .values import Ref as _Ref
 papply = sym('papply', (_Ref, T), T, None)             # result of applying a user callable to an array
@@ -291,6 +292,7 @@ ax('mv_sub', 'math', [L, x, y], sub(mv(L, x), mv(L, y)) == mv(L, sub(x, y)), [z3
    lean='mulVec_sub', gen=dict(L='mat(k,d)', x='vec(d)', y='vec(d)'))
 ax('vmax_abs_nonneg', 'math', [a], vmax(absT(a)) >= 0, [z3.MultiPattern(vmax(absT(a)))], ['vmax', 'absT'], lean='max_abs_nonneg', gen=dict(a='vec(n)'))
 ax('eps_pos', 'math', [], EPS > 0, [], [], lean='machine epsilon is positive (definition)')
+ax('eps_of_pos', 'math', [a], eps_of(a) > 0, [z3.MultiPattern(eps_of(a))], ['eps_of'], lean='machine epsilon is positive (definition)')
 # ---- lib: any() over comparison vectors (numpy/python semantics of any, abs, len at the element level)
 ax('any_elim', 'lib', [b], z3.Implies(anyT(b), z3.And(wit(b) >= 0, wit(b) < lenT(b), at1(b, wit(b)) != 0)), [z3.MultiPattern(anyT(b))], ['anyT'])
 for _n, _f in _cmpz.items():
